@@ -107,6 +107,14 @@ fn gen_case(t: &mut Tape) -> E2Case {
             }
         }
     }
+    // a literal variant may carry a payload that exists on this side only (a ghost field with a default): converting it still
+    // yields the literal, the literal still yields the variant (with the default in the payload)
+    let payload: Vec<bool> = arms.iter().map(|(a, _)| matches!(a, Arm::Lit(_)) && !second && t.chance(1, 6)).collect();
+    if payload.iter().any(|x| *x) {
+        labels.push("literal-variant-with-ghost-payload".into());
+    }
+    let ctor = |vi: usize| -> String { if payload[vi] { format!("S::V{}(77)", vi) } else { format!("S::V{}", vi) } };
+    let vpat = |vi: usize| -> String { if payload[vi] { format!("S::V{}(_)", vi) } else { format!("S::V{}", vi) } };
     // default case
     let default_variant = t.below(nv);
     let default_is_err = fallible && t.coin();
@@ -115,7 +123,7 @@ fn gen_case(t: &mut Tape) -> E2Case {
     } else if matches!(arms[default_variant].0, Arm::CatchAll) {
         format!("S::V{}({})", default_variant, lit_text(if strs { 0 } else { lo }))
     } else {
-        format!("S::V{}", default_variant)
+        ctor(default_variant)
     };
     let with_default = !has_catch_all || t.chance(1, 3);
 
@@ -138,7 +146,7 @@ fn gen_case(t: &mut Tape) -> E2Case {
         for (vi, (arm, into_v)) in arms.iter().enumerate() {
             match arm {
                 Arm::Lit(v) => {
-                    let _ = write!(m, "S::V{} => {}, ", vi, lit_text(*v));
+                    let _ = write!(m, "{} => {}, ", vpat(vi), lit_text(*v));
                 }
                 Arm::CatchAll => {
                     let _ = write!(m, "S::V{}(p) => p.clone(), ", vi);
@@ -167,6 +175,7 @@ fn gen_case(t: &mut Tape) -> E2Case {
     }
     let mut variants_attr = String::new();
     let mut variants_plain = String::new();
+    let ghost_variant_after: Option<usize> = if !has_into && with_default && t.chance(1, 5) { Some(t.below(nv)) } else { None };
     let mut consts: Vec<String> = vec![];
     let mut const_defs = String::new();
     for (vi, (arm, into_v)) in arms.iter().enumerate() {
@@ -244,10 +253,20 @@ fn gen_case(t: &mut Tape) -> E2Case {
                 let _ = write!(variants_attr, "{}V{}({}{}), ", a, vi, fa, prim);
                 let _ = write!(variants_plain, "V{}({}), ", vi, prim);
             }
+            _ if payload[vi] => {
+                let _ = write!(variants_attr, "{}V{}(#[ghost({{ 77 }})] i64), ", a, vi);
+                let _ = write!(variants_plain, "V{}(i64), ", vi);
+            }
             _ => {
                 let _ = write!(variants_attr, "{}V{}, ", a, vi);
                 let _ = write!(variants_plain, "V{}, ", vi);
             }
+        }
+        // a variant that exists on this side only (From kinds never produce it; needs the `_ =>` default case to stay exhaustive)
+        if ghost_variant_after == Some(vi) {
+            labels.push("ghost-variant".into());
+            variants_attr.push_str("#[ghost] G, ");
+            variants_plain.push_str("G, ");
         }
     }
     let derive_input = format!("{}pub enum S {{ {} }}", type_attrs, variants_attr);
@@ -267,7 +286,7 @@ fn gen_case(t: &mut Tape) -> E2Case {
             Arm::Alt(vs) => vs.iter().map(|x| eq(*x)).collect::<Vec<_>>().join(" || "),
             Arm::CatchAll => "true".to_string(),
         };
-        let res = if matches!(arm, Arm::CatchAll) { format!("S::V{}(v)", vi) } else { format!("S::V{}", vi) };
+        let res = if matches!(arm, Arm::CatchAll) { format!("S::V{}(v)", vi) } else { ctor(vi) };
         let _ = write!(model, "if {} {{ return Some(Ok({})); }} ", cond, res);
     }
     let default_model = if with_default { if default_is_err { "Some(Err(E(9)))".to_string() } else { format!("Some(Ok({}))", default_dsl) } } else { "None".to_string() };
@@ -283,7 +302,7 @@ fn gen_case(t: &mut Tape) -> E2Case {
                 Arm::Alt(vs) => vs.iter().map(|x| format!("v == {}", x)).collect::<Vec<_>>().join(" || "),
                 Arm::CatchAll => "true".to_string(),
             };
-            let _ = write!(model2, "if {} {{ return Ok(S::V{}); }} ", cond, vi);
+            let _ = write!(model2, "if {} {{ return Ok({}); }} ", cond, ctor(vi));
         }
         let d2 = if default_is_err { "Err(E(9))".to_string() } else { format!("Ok({})", default_dsl) };
         let _ = write!(h, "pub fn ref_from2(v: i64) -> ::core::result::Result<S, E> {{ {} {} }}\n", model2, d2);
@@ -310,7 +329,7 @@ fn gen_case(t: &mut Tape) -> E2Case {
     for (vi, (arm, into_v)) in arms.iter().enumerate() {
         match arm {
             Arm::Lit(v) => {
-                let _ = write!(into_arms, "S::V{} => {}, ", vi, lit_text(*v));
+                let _ = write!(into_arms, "{} => {}, ", vpat(vi), lit_text(*v));
             }
             Arm::CatchAll => {
                 let _ = write!(into_arms, "S::V{}(p) => *p, ", vi);
@@ -319,6 +338,9 @@ fn gen_case(t: &mut Tape) -> E2Case {
                 let _ = write!(into_arms, "S::V{} => {}, ", vi, lit_text(into_v.unwrap()));
             }
         }
+    }
+    if ghost_variant_after.is_some() {
+        into_arms.push_str("S::G => unreachable!(), ");
     }
     let _ = write!(h, "pub fn ref_into(s: &S) -> {} {{ match s {{ {} }} }}\n", prim, into_arms);
     // values to try
@@ -348,7 +370,7 @@ fn gen_case(t: &mut Tape) -> E2Case {
         format!("({}::MIN..={}::MAX).collect::<Vec<{}>>()", prim, prim, prim)
     };
     let _ = write!(h, "pub fn values() -> Vec<{}> {{ {} }}\n", prim, values);
-    let all_variants: String = arms.iter().enumerate().map(|(vi, (arm, _))| if matches!(arm, Arm::CatchAll) { format!("S::V{}({})", vi, lit_text(if strs { 1 } else { (lo + hi) / 2 + 3 })) } else { format!("S::V{}", vi) }).collect::<Vec<_>>().join(", ");
+    let all_variants: String = arms.iter().enumerate().map(|(vi, (arm, _))| if matches!(arm, Arm::CatchAll) { format!("S::V{}({})", vi, lit_text(if strs { 1 } else { (lo + hi) / 2 + 3 })) } else { ctor(vi) }).collect::<Vec<_>>().join(", ");
     let _ = write!(h, "pub fn variants() -> Vec<S> {{ vec![{}] }}\n", all_variants);
     // literal variants whose literal is reached by no earlier arm: From(Into(v)) == v must hold
     let mut rt: Vec<usize> = vec![];
